@@ -40,7 +40,11 @@ pub(crate) fn run() -> Result<(), Error> {
 
     let mut ps = ProcessState::init(env)?;
     let env2 = ps.env().clone();
-    let mut ptx = ProcessTransaction::new(&mut ps, TransactionBehavior::Deferred)?;
+    // is_dirty() may write (it forgets targets that have vanished) even though
+    // nothing is ever committed here, and SQLite fails a read transaction that
+    // turns into a write one after another process has committed.  Take the
+    // write lock up front like every other writer.
+    let mut ptx = ProcessTransaction::new(&mut ps, TransactionBehavior::Immediate)?;
     let cache: RefCell<HashSet<i64>> = RefCell::new(HashSet::new());
     let mut cb = DirtyCallbacksBuilder::new()
         .is_checked(|f, _| cache.borrow().contains(&f.id()))
